@@ -74,6 +74,29 @@ class Probe(Process):
         return u
 
 
+COUNT = 100000
+
+
+def verif_count(current, update):
+    # every application is visible, also of a zero: value += update + COUNT
+    return current + update + COUNT
+
+
+from vivarium.core.registry import updater_registry
+if updater_registry.access('verif_count') is None:
+    updater_registry.register('verif_count', verif_count)
+
+
+def with_updater(schema, name):
+    if isinstance(schema, dict):
+        if '_default' in schema:
+            schema['_updater'] = name
+        else:
+            for v in schema.values():
+                with_updater(v, name)
+    return schema
+
+
 def leaf(default, emit=True, updater='accumulate'):
     return {'_default': default, '_updater': updater, '_emit': emit}
 
@@ -210,7 +233,7 @@ def gen_case(rng, tier):
         topo['p9'] = ('s9',)
         var(('p9', 'v'), schema['p9']['v']['_default'])
     return {'here': list(here), 'schema': schema, 'topology': topo, 'variables': variables, 'kids': kids_nodes,
-            'second': second, 'extra_procs': extra_procs, 'seed': rng.randrange(10 ** 9)}
+            'second': second, 'extra_procs': extra_procs, 'seed': rng.randrange(10 ** 9), 'count_mode': rng.random() < 0.4}
 
 
 def tset(d, path, v):
@@ -256,10 +279,19 @@ def build(case, with_initial=True):
         for s in q[:-1]:
             cur = cur.setdefault(s, {})
         inc = 2 ** k if k < 40 else k
+        if case.get('count_mode') and k % 2 == 1:
+            inc = 0              # a falsy update still counts as an update (every application adds COUNT)
         k += 1
         cur[q[-1]] = inc
         incs[q] = (inc, tuple(v['node']))
-    probe = Probe({'schema': case['schema'], 'updates': [upd]})
+    schema = case['schema']
+    if case.get('count_mode'):
+        schema = with_updater(copy.deepcopy(schema), 'verif_count')
+        if case.get('second'):
+            case = dict(case, second=dict(case['second'], schema=with_updater(copy.deepcopy(case['second']['schema']), 'verif_count')))
+        case = dict(case, extra_procs=[dict(ep, schema=with_updater(copy.deepcopy(ep['schema']), 'verif_count'))
+                                       for ep in case.get('extra_procs', [])])
+    probe = Probe({'schema': schema, 'updates': [upd]})
     processes, topology = {}, {}
     tset(processes, here + ('probe',), probe)
     tset(topology, here + ('probe',), topo)
@@ -295,6 +327,36 @@ def flat(d, prefix=()):
 
 def is_process_entry(k):
     return bool(k) and k[-1] in ('probe', 'probe2', 'owner')
+
+
+def rebuild_with_override(case, probe, processes, topology):
+    """the SAME process instances are built into a second store after a schema override was merged into the process:
+    the second store must be built from what the process declares NOW"""
+    cands = [v for v in case['variables'] if '*' not in v['q'] and len(v['q']) >= 2 and
+             not any(tuple(w['node']) == tuple(v['node']) and w is not v for w in case['variables'])]
+    if not cands or case.get('count_mode'):
+        return []
+    v = cands[0]
+    # only plain declared leaves (not children of glob ports, whose keys are not schema keys)
+    sch = case['schema']
+    for s_ in v['q']:
+        if not isinstance(sch, dict) or s_ not in sch:
+            return []
+        sch = sch[s_]
+    if not (isinstance(sch, dict) and '_default' in sch):
+        return []
+    ov = {}
+    tset(ov, tuple(v['q']), {'_default': 424242})
+    try:
+        probe.merge_overrides(ov)
+        st2 = generate_state(processes, topology, {})
+        got = tget(st2.get_value(), tuple(v['node']))
+    except Exception as e:
+        return ['rebuilding after a schema override raised %s: %s' % (type(e).__name__, str(e)[:150])]
+    if got != 424242:
+        return ['the process now declares default 424242 for %s (schema override merged after a first build), but a store '
+                'built from the same process instance holds %r at %s' % (tuple(v['q']), got, tuple(v['node']))]
+    return []
 
 
 def composite_initial_state(case):
@@ -383,6 +445,8 @@ def check_case(case, prop):
         except Exception as e:
             fails.append('generate_state raised %s: %s' % (type(e).__name__, str(e)[:150]))
         fails += composite_initial_state(case)
+        if not fails:
+            fails += rebuild_with_override(case, probe, processes, topology)
         return fails[:4]
     try:
         eng.update(1)
@@ -411,7 +475,7 @@ def check_case(case, prop):
     # ---- write side (C06): every node changed by exactly the increments wired to it; nothing else changed
     exp = flat(copy.deepcopy(val0))
     for q, (inc, node) in incs.items():
-        exp[node] = exp.get(node, 0) + inc
+        exp[node] = exp.get(node, 0) + inc + (COUNT if case.get('count_mode') else 0)
     got = flat(val1)
     for k in set(exp) | set(got):
         if is_process_entry(k):
